@@ -478,6 +478,9 @@ func TestVerifRunner(t *testing.T) {
 		if c.Cfg.Limit != runtime.NumCPU() {
 			continue
 		}
+		if os.Getenv("VERIF_SKIP_CONTROLLED") != "" && c.Mode != "stress" {
+			continue
+		}
 		for l := range c.Cfg.Deps {
 			sort.Strings(c.Cfg.Unknown)
 			_ = l
